@@ -2,7 +2,10 @@ import Afkak.Monitor.C14
 /-!
 # C02 — full-strength statements and the environment contract `FaithfulLog`.  Statements, not theorems.
 Each is the acceptance, on every model trace, of the monitor that is run on the implementation's traces.
-`C02_no_gap_no_dup` is proved (`AfkakProps/C02.lean`); `C02_prompt` is NOT (yet) proved.
+`C02_no_gap_no_dup` and `C02_prompt` are proved (`AfkakProps/C02.lean`).  The open statements of the liveness half,
+`C02_never_stuck` (false of model and code: counterexample proved) and `C02_progress_full`, are the definitions
+`Afkak.Proofs.Consumer.L.C02_never_stuck` (`AfkakProofs/Consumer/A5_Progress1.lean`) and `L.C02_progress_full`
+(`A5_ProgressZ.lean`): they need the vocabulary defined there (`Running`, `Enabled`, `ReadyNoFresh`, `contOf`).
 -/
 namespace Afkak.Props.Open.C02
 open Afkak.Consumer Afkak.Monitor
